@@ -277,8 +277,29 @@ pub fn roundtrip_batch(seed: u64, n: usize) -> BatchResult {
 pub fn decode_batch(seed: u64, n: usize) -> BatchResult {
     let mut rng = Rng::new(seed);
     let mut res = BatchResult { counters: Counters::default(), violations: Vec::new(), sigs: HashSet::new(), samples: Vec::new() };
-    for i in 0..n {
-        let (bytes, kind): (Vec<u8>, &'static str) = match rng.below(10) {
+    // every batch begins with the shortest inputs there are: all-zero and all-one strings of 0..=16
+    // bytes, the CRC of nothing, and every sealed one- and two-byte body (type byte x one field byte)
+    let mut tiny: Vec<(Vec<u8>, &'static str)> = Vec::new();
+    for len in 0..=16usize {
+        tiny.push((vec![0u8; len], "tiny-zeros"));
+        tiny.push((vec![0xFFu8; len], "tiny-ones"));
+    }
+    tiny.push((seal(Vec::new()), "tiny-sealed"));
+    for t in 0..=255u8 {
+        tiny.push((seal(vec![t]), "tiny-sealed"));
+    }
+    for t in [0u8, 1, 2, 3, 4, 5, 10, 11, 12] {
+        for _ in 0..8 {
+            let l = rng.range(1, 8) as usize;
+            let mut b = vec![t];
+            b.extend((0..l).map(|_| rng.u64() as u8));
+            tiny.push((seal(b), "tiny-sealed"));
+        }
+    }
+    let n_tiny = tiny.len();
+    let mut tiny = tiny.into_iter();
+    for i in 0..n + n_tiny {
+        let (bytes, kind): (Vec<u8>, &'static str) = if let Some(t) = tiny.next() { res.counters.inc("decode_tiny_inputs"); t } else { match rng.below(10) {
             0 => {
                 // random bytes, random length, correct crc
                 let len = rng.range(1, 1468) as usize;
@@ -419,7 +440,7 @@ pub fn decode_batch(seed: u64, n: usize) -> BatchResult {
                     (bytes, kind)
                 }
             }
-        };
+        } };
         if bytes.len() > MAX_FRAME_SIZE {
             // the endpoints never hand more than one MTU to the reader
             continue;
